@@ -17,8 +17,13 @@ Section WithOracle.
 Variable cb : cb_oracle.
 Variable g : cfg.
 
+(* when an API call returns, the caller may release the chunk: what in_current_data / out_current_data still point
+   to is stale. The model forgets the bytes (k_data := None, offsets kept), so that a later use of the stale
+   pointer with a non-zero length is a fault (MTxCommon.req_receiver_send_data / MTxRes twin). *)
+Definition forget_chunks (c : connp) : connp :=
+  c <| c_in := (c_in c) <| k_data := None |> |> <| c_out := (c_out c) <| k_data := None |> |>.
 Definition finish_call (c : connp) (rc : Z) (consumed : nat) (ev : bool) : connp * cp_result :=
-  (c <| c_events := [] |>,
+  (forget_chunks c <| c_events := [] |>,
    mkres rc consumed (c_in_status c) (c_out_status c) (length (c_txs c))
          (olen (k_buf (c_in c))) (olen (k_header (c_in c))) (olen (k_buf (c_out c))) (olen (k_header (c_out c)))
          (rev (c_events c)) ev).
